@@ -72,7 +72,16 @@ func c10Model(stderr []byte, bufSize int) []c10Line {
 		l := &lines[i]
 		if l.long {
 			l.kind = "long"
-			continue // continuation pieces do not touch the panic state
+			// Pieces of a line that does not fit do not touch the panic-trace
+			// state. A line within a byte or two of the buffer size may or may not
+			// have been seen as one complete line, so after such a line the state
+			// is unknown whenever a complete reading could have changed it.
+			if len(l.raw) <= B {
+				if inPanic == 1 || strings.HasPrefix(string(l.raw), "panic:") {
+					inPanic = 2
+				}
+			}
+			continue
 		}
 		body := l.raw
 		if l.hasNL {
